@@ -98,6 +98,12 @@ def instances(tier):
                 tabs_iter = itertools.product(menu[:3] if q else menu, repeat=r)
                 for tabs in tabs_iter:
                     yield {"vars": {v: [0, 1] for v in names}, "cons": [{"name": f"c{i}", "scope": list(e), "table": t} for i, (e, t) in enumerate(zip(edges, tabs))], "mode": mode}
+        # the 3-chain with ALL {0,1,2}-valued tables on both constraints (bound / pruning arithmetic), plus a {0..3} menu
+        t012 = list(gen.tables_01(2, 2, values=(0, 1, 2)))
+        m3 = [[[2, 3], [3, 3]], [[1, 0], [2, 2]], [[3, 0], [1, 2]], [[0, 3], [2, 1]]]
+        chain_tabs = [(a, b) for a in t012 for b in t012 if (not q or (t012.index(a) + t012.index(b)) % 2 == 0)] + [(a, b) for a in m3 for b in m3]
+        for a, b in chain_tabs:
+            yield {"vars": {v: [0, 1] for v in names}, "cons": [{"name": "c0", "scope": ["v0", "v1"], "table": a}, {"name": "c1", "scope": ["v1", "v2"], "table": b}], "mode": mode}
         if True:
             names4 = ["v0", "v1", "v2", "v3"]
             for edges in ([("v0", "v1"), ("v1", "v2"), ("v2", "v3")], [("v0", "v3"), ("v1", "v2")], [("v0", "v2"), ("v1", "v3"), ("v0", "v1")]):
